@@ -136,6 +136,12 @@ func isKeyType(mm *core.MapModel, t types.Type) bool {
 
 // slotWordWrite classifies a write to a bucket word in the core: "nil", "set", "link", "meta" or "".
 func slotWordWrite(r *Run, in ssa.Instruction) (kind string, addr ssa.Value) {
+	return slotWordWriteR(r, in, nil)
+}
+
+// slotWordWriteR: resolve maps a parameter of a helper analysed in place to the caller's argument (the stored value
+// of a shared 'publish slot' helper is nil at one call site and a fresh entry at another).
+func slotWordWriteR(r *Run, in ssa.Instruction, resolve func(ssa.Value) ssa.Value) (kind string, addr ssa.Value) {
 	var val ssa.Value
 	switch x := in.(type) {
 	case *ssa.Store:
@@ -160,6 +166,9 @@ func slotWordWrite(r *Run, in ssa.Instruction) (kind string, addr ssa.Value) {
 	if core.IsAtomicPointerType(ft) {
 		if a.Field != "" && a.Field[len(a.Field)-1] != ']' {
 			return "link", addr
+		}
+		if val != nil && resolve != nil {
+			val = core.StripConv(resolve(core.StripConv(val)))
 		}
 		if val != nil && core.IsNilConst(val) {
 			return "nil", addr
@@ -357,9 +366,14 @@ func coreFlow(r *Run, mm *core.MapModel, sp core.Spec) *CoreFlow {
 				}
 			}
 		}
-		if kind, addr := slotWordWrite(r, in); kind != "" {
+		if kind, addr := slotWordWriteR(r, in, ctx.Resolve); kind != "" {
 			if fi := unpublishedAt(r, in.Parent(), addr, in, 0); !fi.OK {
 				isSlotAccess = true
+				if ia, isIA := core.StripConv(addr).(*ssa.IndexAddr); isIA && (kind == "set" || kind == "nil") {
+					if msg := slotPairing(r, ctx.Resolve(core.StripConv(bucketOfAddr(ia))), ctx.Resolve(core.StripConv(ia.Index))); msg != "" {
+						ctx.Report(in, "P14", "%s: the write lands in a slot of another bucket and replaces a different key's entry", msg)
+					}
+				}
 				if !s.Lock {
 					ctx.Report(in, "P5", "bucket word (%s) written without holding the bucket lock", core.Addr(addr).Key())
 				}
@@ -437,7 +451,7 @@ func coreFlow(r *Run, mm *core.MapModel, sp core.Spec) *CoreFlow {
 				} else {
 					ctx.Report(in, "S1", "counter delta is not a constant")
 				}
-				if core.StripConv(ctx.Resolve(core.StripConv(args[0]))) != core.StripConv(cf.TableVal) {
+				if core.StripConv(ctx.Resolve(core.CounterOwner(args[0]))) != core.StripConv(cf.TableVal) {
 					ctx.Report(in, "S1", "counter update goes to a table other than the one validated and modified by this attempt")
 				}
 				if cal == mm.AddPlain {
@@ -559,4 +573,111 @@ func (cf *CoreFlow) tagged(tag string) []core.Finding[CS] {
 		}
 	}
 	return out
+}
+
+// ---- slot (bucket, index) pairing ----
+
+// slotPairing decides, for a write to element idx of a slot array of bucket bkt (both already resolved to the
+// function under analysis), whether bucket and index belong together. Two consistent shapes exist: both are used
+// *directly* (the bucket the scan stands on and an index computed for it in the same step: the slot-loop counter, the
+// first marked byte of its meta word), or both were *remembered together* at the same program point ('first free
+// slot seen: emptyb, emptyidx = b, i'). A write that pairs a remembered index with the bucket the scan currently
+// stands on (or the reverse, or values remembered at different points) addresses a slot of some other bucket - it
+// replaces another key's entry. Shapes the classification does not recognise are not judged.
+func slotPairing(r *Run, bkt, idx ssa.Value) string {
+	idx = core.StripConv(idx)
+	bkt = core.StripConv(bkt)
+	if _, isC := idx.(*ssa.Const); isC {
+		return ""
+	}
+	iDirect, isites := pairSites(r, idx, false)
+	bDirect, bsites := pairSites(r, bkt, true)
+	switch {
+	case iDirect && bDirect:
+		return ""
+	case !iDirect && !bDirect:
+		if len(isites) == 0 || len(bsites) == 0 {
+			return ""
+		}
+		for b := range isites {
+			if !bsites[b] {
+				return "the slot index and the bucket it is used with were remembered at different points of the scan"
+			}
+		}
+		for b := range bsites {
+			if !isites[b] {
+				return "the slot index and the bucket it is used with were remembered at different points of the scan"
+			}
+		}
+		return ""
+	case !iDirect && bDirect:
+		if len(isites) == 0 {
+			return ""
+		}
+		return "a remembered slot index (the free slot noted earlier in the scan) is used with the bucket the scan is currently standing on, not with the bucket it was noted for"
+	default:
+		if len(bsites) == 0 {
+			return ""
+		}
+		return "an index computed for the bucket the scan is standing on is used with a bucket remembered earlier in the scan"
+	}
+}
+
+// pairSites: a value is used directly (not a merge of remembered values) or is a phi network that remembers values
+// assigned at certain blocks; for the latter the blocks through which a non-constant, non-fresh value enters the
+// network are returned. The loop-carried phis of the scan itself (slot counter, chain-walk bucket) count as direct.
+func pairSites(r *Run, v ssa.Value, bucket bool) (direct bool, sites map[*ssa.BasicBlock]bool) {
+	isScanPhi := func(phi *ssa.Phi) bool {
+		for _, e := range phi.Edges {
+			e = core.StripConv(e)
+			if bucket {
+				if ld, isLd := e.(*ssa.UnOp); isLd && ld.Op == token.MUL {
+					if a := core.Addr(ld.X); isBucketOwner(r, a.Owner) && a.Field != "" && a.Field[len(a.Field)-1] != ']' {
+						return true // load of the link word
+					}
+				}
+				if c, isCall := e.(*ssa.Call); isCall {
+					if a, isLoad := atomicLoadPath(c); isLoad && isBucketOwner(r, a.Owner) {
+						return true
+					}
+				}
+			} else if b, isB := e.(*ssa.BinOp); isB && b.Op == token.ADD && core.StripConv(b.X) == ssa.Value(phi) {
+				if k, isK := core.ConstInt(b.Y); isK && k == 1 {
+					return true
+				}
+			}
+		}
+		return false
+	}
+	phi, ok := v.(*ssa.Phi)
+	if !ok || isScanPhi(phi) {
+		return true, nil
+	}
+	sites = map[*ssa.BasicBlock]bool{}
+	seen := map[*ssa.Phi]bool{}
+	var walk func(p *ssa.Phi)
+	walk = func(p *ssa.Phi) {
+		if seen[p] {
+			return
+		}
+		seen[p] = true
+		for i, e := range p.Edges {
+			e = core.StripConv(e)
+			switch x := e.(type) {
+			case *ssa.Const:
+			case *ssa.Alloc:
+				// a fresh bucket of this call: not a remembered position of the scan
+			case *ssa.Phi:
+				if isScanPhi(x) {
+					sites[p.Block().Preds[i]] = true
+				} else {
+					walk(x)
+				}
+			default:
+				sites[p.Block().Preds[i]] = true
+			}
+		}
+	}
+	walk(phi)
+	return false, sites
 }
